@@ -749,23 +749,24 @@ func judge(p program, steps []step, doc string) (sig, what, outcome string) {
 // tests) that First/Last turn a nil list - only an empty document's .Nodes is
 // one - into "nothing", which Length counts as 1 and Combine cannot take.
 func nilListThroughFirstLast(p program, steps []step, doc string) bool {
-	// an empty list enters a First/Last step (non-nil empty lists give no finding in the first place)
-	var v interface{} = p.Start.Fn(decode(doc))
-	t := p.Start.Out
-	for _, si := range p.Steps {
+	// a NIL list enters a First/Last step: the value of the pipeline in front of that step, as the real
+	// engine computes it, is a nil slice (an empty but non-nil list is handled correctly and gives no
+	// finding; a wrong answer for it is NOT this known finding)
+	for i, si := range p.Steps {
 		s := steps[si]
-		if strings.HasPrefix(s.Text, "First(") || strings.HasPrefix(s.Text, "Last(") {
-			if l, ok := v.(list); ok && len(l) == 0 {
-				return true
-			}
+		if !(strings.HasPrefix(s.Text, "First(") || strings.HasPrefix(s.Text, "Last(")) {
+			continue
 		}
-		nt, _ := s.Out(t)
-		var ok bool
-		v, ok = s.Ref(v, t, nil)
-		if !ok {
+		prefix := program{Start: p.Start, Steps: p.Steps[:i], Form: "plain"}
+		v, err, pmsg := evalEngine(prefix.text(steps), doc)
+		if err != nil || pmsg != "" {
 			return false
 		}
-		t = nt
+		if v == nil {
+			return true
+		}
+		rv := reflect.ValueOf(v)
+		return rv.Kind() == reflect.Slice && rv.IsNil()
 	}
 	return false
 }
